@@ -131,7 +131,7 @@ pub fn run_prop(ctx: &Ctx) -> PropReport {
     let tier = ctx.tier;
     rep.part(|| run_random(ctx, "replicas",
         "C01's scenario space weighted to two local players per peer and 3-4 peers, with desync detection, delay changes and (two-peer) deaths; every scenario is executed three times, replicas 2 and 3 in fresh OS threads (fresh RandomState for every HashMap) and with different handshake random numbers; compared: per-session request-list trace (tick, request kinds, frames, inputs, statuses), every saved game state, per-address event sequences with timestamps, and the per-link sent packet counts (premise: same packets); non-trivial = a peer with several local players or >= 3 peers, > 50 confirmed frames",
-        || gen(tier), ctx.tier.pick(1200, 6000), eval));
+        || gen(tier), ctx.tier.pick(3000, 12000), eval));
     rep.floors.push(("replicas".into(), 0.3));
     rep.assumptions = vec![
         "hash order cannot be forced; every replica samples one fresh RandomState per map. A dependence that needs one specific order of k keys is missed by 3 replicas with probability about (1/k!)^2..1".into(),
